@@ -53,7 +53,8 @@ def main():
         if d.startswith(os.path.join(VERIF, "seeded")):
             dst = d
         else:
-            dst = os.path.join(VERIF, "seeded", "%s-%s-%s" % (prop, k, slug))
+            wave = "w2-" if "/mutout2-" in d else ""
+            dst = os.path.join(VERIF, "seeded", "%s-%s%s-%s" % (prop, wave, k, slug))
             os.makedirs(dst, exist_ok=True)
             for f in os.listdir(d):
                 if f in ("patch.diff", "demo_test.go", "demo_output.txt") or (f.endswith(".sh") and os.path.getsize(os.path.join(d, f)) < 20000):
